@@ -532,6 +532,38 @@ pub fn run(ctx: &Ctx, rep: &mut Reporter) {
             if rng.chance(1, 3) {
                 file.push(Item::Noise(rng.pick(NOISE_CATALOGUE).to_string()));
             }
+            // lines that are related to the lines before them: a record is a function of its
+            // own line, whatever the iterator has yielded before
+            if rng.chance(1, 2) {
+                let (q, o) = (qualified(&mut rng, 3), qualified(&mut rng, 2));
+                file.push(Item::Class { orig: q.clone(), obf: o.clone() });
+                let n = 1 + rng.below(4);
+                for _ in 0..n {
+                    let combo = rng.below(48) | 2; // with a class qualifier
+                    let mut m = gen_method(&mut rng, combo);
+                    match rng.below(5) {
+                        0 | 1 => m.orig_class = Some(q.clone()), // qualified with its own class
+                        2 => m.orig_class = Some(o.clone()),      // ... with the obfuscated name
+                        3 => {
+                            // the same method line as the one before
+                            if let Some(Item::Method(prev)) = file.last() {
+                                m = prev.clone();
+                            }
+                        }
+                        _ => {
+                            if let Some(Item::Method(prev)) = file.last() {
+                                m.orig = prev.obf.clone();
+                                m.obf = prev.orig.clone();
+                            }
+                        }
+                    }
+                    if rng.chance(1, 5) {
+                        file.push(Item::SourceFileJson { name: "Main.kt".into() });
+                    }
+                    file.push(Item::Method(m));
+                }
+                rep.count("files_with_lines_related_to_earlier_lines", 1);
+            }
             check_file(&file, &mut rng, rep, case_idx);
             if rep.wants_sample() {
                 let mut s = Json::obj();
